@@ -112,6 +112,162 @@ Proof.
     pose proof (sumQ_all_zero _ Hall) as Hs0. rewrite (weights_sum_one l Hne) in Hs0. lra.
 Qed.
 
+(* ---------- the crash status shortcut is the model ---------- *)
+(** for every arithmetic instance (binary64 included), every list of fixed weights and
+    every behaviour of the sort: [route_status] is the crash status of [route_ring] *)
+Theorem route_status_correct (A : arith) order (fixed : list (num A)) :
+  (forall s, Permutation (order s) s) ->
+  status_of (route_ring A order fixed) = route_status A fixed.
+Proof.
+  intros Hord. unfold route_ring, route_status.
+  destruct (Nat.eqb (n_fixed A fixed) 0); [reflexivity|].
+  set (counts := map (slot_count A) (weigh A fixed)).
+  pose proof (ring_status_correct counts (order (indexed counts)) (Hord _)) as H.
+  destruct (ring_of_counts (order (indexed counts)) counts); cbn [bind status_of] in *; exact H.
+Qed.
+
+(* ---------- the tie order of the unstable sort is immaterial ---------- *)
+Theorem fill_counts_order_independent counts sorted1 sorted2 :
+  Forall (fun n => 0 <= n)%Z counts -> (zsum counts <= 2^45)%Z ->
+  Permutation sorted1 (indexed counts) -> Permutation sorted2 (indexed counts) ->
+  exists r1 r2, ring_of_counts sorted1 counts = Ok r1 /\ ring_of_counts sorted2 counts = Ok r2
+    /\ length r1 = length r2 /\ forall t, occupancy t r1 = occupancy t r2.
+Proof.
+  intros Hnn Hb H1 H2.
+  destruct (ring_of_counts_spec counts sorted1 Hnn Hb H1) as (r1 & Hr1 & Hl1 & Hn1 & Hs1).
+  destruct (ring_of_counts_spec counts sorted2 Hnn Hb H2) as (r2 & Hr2 & Hl2 & Hn2 & Hs2).
+  exists r1, r2. repeat split; [exact Hr1|exact Hr2|lia|].
+  intros [i|]; [|lia]. specialize (Hs1 i). specialize (Hs2 i). lia.
+Qed.
+
+Lemma route_counts_ok (l : list Q) :
+  (Z.of_nat (length l) <= 3000000000)%Z ->
+  let counts := map (slot_count arithQ) (weighQ l) in
+  Forall (fun n => 0 <= n <= 10000)%Z counts /\ (zsum counts <= 2 ^ 45)%Z.
+Proof.
+  intros Hlen counts.
+  assert (Hrange : Forall (fun n => 0 <= n <= 10000)%Z counts).
+  { unfold counts. apply Forall_forall. intros n Hn. apply in_map_iff in Hn.
+    destruct Hn as (w & <- & Hin). apply slot_count_range; [now apply (weights_nonneg l)|now apply (weights_le_one l)]. }
+  split; [exact Hrange|].
+  assert (Hub : Forall (fun n => n <= 10000)%Z counts).
+  { eapply Forall_impl; [|exact Hrange]. cbn. intros; lia. }
+  pose proof (zsum_bound counts 10000 Hub) as Hz.
+  assert (Hlc : length counts = length l).
+  { unfold counts. rewrite map_length, weighQ_map, map_length. reflexivity. }
+  rewrite Hlc in Hz. assert (2 ^ 45 = 35184372088832)%Z by reflexivity. lia.
+Qed.
+
+(** whatever two executions of the unstable sort do, the two rings have the same length
+    and every target (and nil) the same number of slots: all conclusions of the property
+    (shares, never starved, never picked, hit counts of a full round-robin cycle, support
+    of the random picker) are functions of these numbers only *)
+Theorem route_split_order_independent order1 order2 (l : list Q) :
+  l <> [] -> (Z.of_nat (length l) <= 3000000000)%Z ->
+  (forall s, Permutation (order1 s) s) -> (forall s, Permutation (order2 s) s) ->
+  exists r1 r2, route_ring arithQ order1 l = Ok (weighQ l, r1)
+    /\ route_ring arithQ order2 l = Ok (weighQ l, r2)
+    /\ length r1 = length r2 /\ forall t, occupancy t r1 = occupancy t r2.
+Proof.
+  intros Hne Hlen H1 H2. unfold route_ring. fold (weighQ l).
+  destruct (Nat.eqb (n_fixed arithQ l) 0).
+  - eexists. eexists. repeat split; reflexivity.
+  - destruct (route_counts_ok l Hlen) as [Hrange Hb].
+    set (counts := map (slot_count arithQ) (weighQ l)) in *.
+    assert (Hnn : Forall (fun n => 0 <= n)%Z counts).
+    { eapply Forall_impl; [|exact Hrange]. cbn. intros; lia. }
+    destruct (fill_counts_order_independent counts _ _ Hnn Hb (H1 (indexed counts)) (H2 (indexed counts)))
+      as (r1 & r2 & Hr1 & Hr2 & Hl & Ho).
+    rewrite Hr1, Hr2. cbn [bind]. exists r1, r2. repeat split; assumption.
+Qed.
+
+(* ---------- the resolution of 10 000 slots ---------- *)
+Local Open Scope Q_scope.
+Lemma slot_bounds w : 0 <= w -> w <= 1 ->
+  inject_Z 10000 * w - 1 < inject_Z (slot_countQ w) /\ inject_Z (slot_countQ w) <= inject_Z 10000 * w + 1.
+Proof.
+  intros H0 H1. destruct (slot_arg_range w H0 H1) as [Ha _].
+  destruct (slot_count_resolution w H0 H1) as [(Hn & Hw & Hx)|(Hl & Hu)].
+  - rewrite Hn. change (inject_Z 1) with 1. set (x := inject_Z 10000 * w) in *. clearbody x. split; lra.
+  - set (x := inject_Z 10000 * w) in *. clearbody x. split; lra.
+Qed.
+
+Lemma inject_Z_sub a b : inject_Z (a - b) == inject_Z a - inject_Z b.
+Proof. unfold Z.sub. rewrite inject_Z_plus, inject_Z_opp. reflexivity. Qed.
+
+Lemma zsum_cons n l : zsum (n :: l) = (n + zsum l)%Z.
+Proof. reflexivity. Qed.
+
+Lemma slots_sum_bounds ws : (forall w, In w ws -> 0 <= w /\ w <= 1) ->
+  inject_Z 10000 * sumQ ws - qn (length ws) <= inject_Z (zsum (map slot_countQ ws))
+  /\ inject_Z (zsum (map slot_countQ ws)) <= inject_Z 10000 * sumQ ws + qn (length ws).
+Proof.
+  induction ws as [|w ws IH]; intros H01.
+  - cbn [map length]. rewrite sumQ_nil. unfold qn, zsum. cbn [fold_right Z.of_nat].
+    change (inject_Z 0) with 0. set (S := inject_Z 10000). clearbody S. split; lra.
+  - cbn [map length]. rewrite zsum_cons, inject_Z_plus, sumQ_cons, qn_S.
+    destruct (H01 w (or_introl eq_refl)) as [H0 H1].
+    destruct (slot_bounds w H0 H1) as [Hl Hu].
+    destruct IH as [IHl IHu]; [intros x Hx; apply H01; now right|].
+    set (S := inject_Z 10000) in *. clearbody S. split; nra.
+Qed.
+
+(** slots_resolution (sum): the ring of a route with [len] targets has more than S - len and
+    at most S + len slots, S = maxSlots = 10000 *)
+Theorem slots_resolution_sum (l : list Q) : l <> [] ->
+  (10000 - Z.of_nat (length l) < zsum (map slot_countQ (weighQ l)) <= 10000 + Z.of_nat (length l))%Z.
+Proof.
+  intros Hne.
+  assert (H01 : forall w, In w (weighQ l) -> 0 <= w /\ w <= 1).
+  { intros w Hin. split; [now apply (weights_nonneg l)|now apply (weights_le_one l)]. }
+  pose proof (weights_sum_one l Hne) as Hsum.
+  assert (Hlen : length (weighQ l) = length l) by (rewrite weighQ_map; apply map_length).
+  destruct (weighQ l) as [|w ws] eqn:Ews.
+  { exfalso. destruct l; [now apply Hne|]. cbn in Hlen. discriminate. }
+  cbn [map] in *. rewrite zsum_cons. rewrite sumQ_cons in Hsum. cbn [length] in Hlen.
+  destruct (H01 w (or_introl eq_refl)) as [H0 H1].
+  destruct (slot_bounds w H0 H1) as [Hl Hu].
+  destruct (slots_sum_bounds ws) as [Sl Su]; [intros x Hx; apply H01; now right|].
+  assert (Hq : qn (length l) == qn (length ws) + 1) by (rewrite <- Hlen; apply qn_S).
+  split.
+  - rewrite Zlt_Qlt. rewrite inject_Z_sub, inject_Z_plus. fold (qn (length l)). rewrite Hq.
+    assert (inject_Z 10000 == 10000) by reflexivity. nra.
+  - rewrite Zle_Qle. rewrite !inject_Z_plus. fold (qn (length l)). rewrite Hq.
+    assert (inject_Z 10000 == 10000) by reflexivity. nra.
+Qed.
+
+(** ... and therefore the share of slots of every target is its weight up to
+    (len + 1) / (S - len), for every route with fewer than S targets *)
+Theorem slots_share_bound (l : list Q) i w : l <> [] -> (Z.of_nat (length l) < 10000)%Z ->
+  nth_error (weighQ l) i = Some w ->
+  let U := inject_Z (zsum (map slot_countQ (weighQ l))) in
+  let B := (qn (length l) + 1) / (inject_Z 10000 - qn (length l)) in
+  0 < U /\ - B <= inject_Z (slot_countQ w) / U - w /\ inject_Z (slot_countQ w) / U - w <= B.
+Proof.
+  intros Hne Hlt Hw U B.
+  pose proof (slots_resolution_sum l Hne) as [HUl HUu].
+  rewrite Zlt_Qlt in HUl. rewrite Zle_Qle in HUu. rewrite inject_Z_sub in HUl. rewrite inject_Z_plus in HUu.
+  fold U in HUl, HUu. fold (qn (length l)) in HUl, HUu.
+  rewrite Zlt_Qlt in Hlt. fold (qn (length l)) in Hlt.
+  pose proof (qn_nonneg (length l)) as Hln.
+  assert (H0 : 0 <= w) by (apply (weights_nonneg l); eapply nth_error_In; eauto).
+  assert (H1 : w <= 1) by (apply (weights_le_one l); eapply nth_error_In; eauto).
+  destruct (slot_bounds w H0 H1) as [Hl Hu].
+  set (n := inject_Z (slot_countQ w)) in *. set (L := qn (length l)) in *. set (S := inject_Z 10000) in *.
+  assert (HU0 : 0 < U) by lra. split; [exact HU0|].
+  assert (HD : 0 < S - L) by lra.
+  set (K := (L + 1) / (S - L)).
+  assert (HK : K * (S - L) == L + 1) by (unfold K; field; lra).
+  assert (HK0 : 0 <= K) by (unfold K; apply Qle_shift_div_l; lra).
+  assert (Hnum_u : n - w * U <= L + 1) by nra.
+  assert (Hnum_l : - (L + 1) <= n - w * U) by nra.
+  assert (Heq : n / U - w == (n - w * U) / U) by (field; lra).
+  fold K in B. subst B. rewrite Heq. split.
+  - apply Qle_shift_div_l; [exact HU0|]. nra.
+  - apply Qle_shift_div_r; [exact HU0|]. nra.
+Qed.
+Local Close Scope Q_scope.
+
 (* non-vacuity: the hypotheses are met by a concrete route and the stable order *)
 Example route_ring_nonvacuous :
   exists r, route_ring arithQ stable_order [1 # 2; 0; 1 # 5]%Q = Ok (weighQ [1 # 2; 0; 1 # 5]%Q, r) /\ r <> [].
